@@ -686,124 +686,216 @@ func (r *rwRT) ruleOptEta() {
 
 func (r *rwRT) ruleOptOrder() {
 	c := r.c
-	c.min("OPT.ORDER", 1)
+	c.min("OPT.ORDER", 4)
 	fn := r.method("optimizer", "optimizeAllFiles")
 	c.fn(relName(fn))
 	pos := r.w.FnPos(fn)
-	// the per-file closure handed to VisitAllFiles
+	// optimizeAllFiles is evaluated with VisitAllFiles as an event; then every callback it handed to VisitAllFiles
+	// is driven, in order, over two different files (what VisitAllFiles does). A question about a file ("does it
+	// use seq") is answered the same way every time it is asked on one path.
 	in := r.interp(rwConfig{root: fn, boundaries: map[string]bool{"optimizeDelayCall": true, "etaReduction": true, "optimizeBindCall": true}})
 	outs := in.Run(nil, fn, []AV{Sym{Name: "o", NN: true}, Sym{Name: "printer", NN: true}}, nil)
 	r.account(in)
-	var visit AV
+	var visits []AV
 	var base *State
 	for _, o := range outs {
+		var vs []AV
 		for _, e := range o.St.Events {
 			if e.Kind == "call" && e.Fn != nil && e.Fn.Name() == "VisitAllFiles" && len(e.Args) == 2 {
-				visit, base = e.Args[1], o.St
+				vs = append(vs, e.Args[1])
 			}
 		}
+		if len(vs) > len(visits) {
+			visits, base = vs, o.St
+		}
 	}
-	if visit == nil {
+	if len(visits) == 0 {
 		c.und("OPT.ORDER", "per-file steps", pos, "optimizeAllFiles does not visit files through VisitAllFiles")
 		return
 	}
+	files := []string{"f", "f2"}
+	fileOf := func(v AV) string {
+		l := argLabel(unwrap(v))
+		for _, f := range files {
+			if l == f {
+				return f
+			}
+		}
+		return ""
+	}
 	in.OnCall = wrapOnCall(in.OnCall, func(cc *CallCtx) []Answer {
-		if cc.Fn != nil && cc.Fn.Name() == "Uses" {
-			return []Answer{{Ret: []AV{mkBool(true)}, Label: "uses seq"}, {Ret: []AV{mkBool(false)}, Label: "does not use seq"}}
+		if cc.Fn != nil && cc.Fn.Name() == "Uses" && len(cc.Args) >= 1 {
+			f := fileOf(cc.Args[0])
+			for _, l := range cc.St.Labels {
+				if l == f+" uses seq" {
+					return []Answer{{Ret: []AV{mkBool(true)}, Label: f + " asked again"}}
+				}
+				if l == f+" does not use seq" {
+					return []Answer{{Ret: []AV{mkBool(false)}, Label: f + " asked again"}}
+				}
+			}
+			return []Answer{{Ret: []AV{mkBool(true)}, Label: f + " uses seq"}, {Ret: []AV{mkBool(false)}, Label: f + " does not use seq"}}
 		}
 		return nil
 	})
 	in.Fields["f.Filename"] = Sym{Name: "filename1", Uniq: true}
 	in.Fields["f2.Filename"] = Sym{Name: "filename2", Uniq: true}
-	res := in.Apply(base, visit, []AV{Sym{Name: "f", NN: true}})
+	sts := []*State{base}
+	for _, visit := range visits {
+		for _, f := range files {
+			var next []*State
+			for _, st := range sts {
+				for _, o := range in.Apply(st, visit, []AV{Sym{Name: f, NN: true}}) {
+					if !o.Panicked {
+						next = append(next, o.St)
+					}
+				}
+			}
+			sts = next
+		}
+	}
 	r.account(in)
-	// a second, different file that uses seq, visited after one that was printed, is printed too
-	secondOK, secondSeen := true, false
-	secondEx := ""
-	for _, o := range res {
-		usesSeq, printed := false, false
-		for _, l := range o.St.Labels {
-			if l == "uses seq" {
-				usesSeq = true
-			}
-		}
-		for _, e := range o.St.Events[len(base.Events):] {
-			if e.Kind == "call" && isSymNamed(e.Callee, "printer") {
-				printed = true
-			}
-		}
-		if !usesSeq || !printed || o.Panicked {
-			continue
-		}
-		n0, nl := len(o.St.Events), len(o.St.Labels)
-		for _, o2 := range in.Apply(o.St, visit, []AV{Sym{Name: "f2", NN: true}}) {
-			uses2, printed2 := false, false
-			for _, l := range o2.St.Labels[nl:] {
-				if l == "uses seq" {
-					uses2 = true
-				}
-			}
-			for _, e := range o2.St.Events[n0:] {
-				if e.Kind == "call" && isSymNamed(e.Callee, "printer") {
-					printed2 = true
-				}
-			}
-			if uses2 && !o2.Panicked {
-				secondSeen = true
-				if !printed2 {
-					secondOK = false
-					secondEx = pathSummary(o2)
-				}
-			}
-		}
-		r.account(in)
+	if len(sts) == 0 {
+		c.und("OPT.ORDER", "per-file steps", pos, "no completed path through the per-file callbacks")
+		return
 	}
-	if secondSeen {
-		c.check(secondOK, "OPT.ORDER", "second file using seq", pos, "is printed whatever was printed before it", "a file that uses seq is not written because of another file processed earlier (its plain declarations vanish from the generated package): "+secondEx)
+	// per path: the sequence of steps, each attributed to a file where it has one
+	type step struct{ what, file string }
+	type verdict struct {
+		ok  bool
+		why string
 	}
-	for _, o := range res {
-		uses := false
-		for _, l := range o.St.Labels {
-			if l == "uses seq" {
-				uses = true
-			}
+	res := map[string]*verdict{}
+	note := func(key string, ok bool, why string) {
+		v := res[key]
+		if v == nil {
+			v = &verdict{ok: true}
+			res[key] = v
 		}
-		var seq []string
-		for _, e := range o.St.Events[len(base.Events):] {
+		if !ok && v.ok {
+			v.ok, v.why = false, why
+		}
+	}
+	for _, st := range sts {
+		uses := map[string]bool{}
+		asked := map[string]int{} // index of the first question about the file
+		var seq []step
+		li := 0
+		for _, e := range st.Events[len(base.Events):] {
 			if e.Kind != "call" {
 				continue
 			}
-			if e.Fn != nil && inRw(e.Fn) {
-				seq = append(seq, e.Fn.Name())
-			} else if e.Fn != nil && e.Fn.Name() == "Clean" && strings.Contains(fnPkgPath(e.Fn), "go-imports") {
-				seq = append(seq, "cleanImports")
-			} else if isSymNamed(e.Callee, "printer") {
-				seq = append(seq, "print")
+			switch {
+			case e.Fn != nil && e.Fn.Name() == "Uses" && len(e.Args) >= 1:
+				f := fileOf(e.Args[0])
+				if _, ok := asked[f]; !ok {
+					asked[f] = len(seq)
+				}
+				seq = append(seq, step{"uses?", f})
+			case e.Fn != nil && inRw(e.Fn):
+				f := ""
+				for _, a := range e.Args {
+					if x := fileOf(a); x != "" {
+						f = x
+					}
+				}
+				seq = append(seq, step{e.Fn.Name(), f})
+			case e.Fn != nil && e.Fn.Name() == "Clean" && strings.Contains(fnPkgPath(e.Fn), "go-imports"):
+				f := ""
+				for _, a := range e.Args {
+					if x := fileOf(a); x != "" {
+						f = x
+					}
+				}
+				seq = append(seq, step{"cleanImports", f})
+			case isSymNamed(e.Callee, "printer"):
+				f := ""
+				for _, a := range e.Args {
+					if x := fileOf(a); x != "" {
+						f = x
+					}
+				}
+				seq = append(seq, step{"print", f})
 			}
 		}
-		got := strings.Join(seq, ",")
-		if uses {
-			good := len(seq) >= 2 && seq[len(seq)-1] == "print" && strings.Count(got, "print") == 1 && strings.Contains(got, "cleanImports")
-			c.check(good, "OPT.ORDER", "file using seq", pos, "imports are cleaned and the optimisations run before the file is printed exactly once: "+got, "unexpected per-file sequence: "+got)
-			// an optimisation can drop the last use of an import (a reduced closure's parameter type):
-			// the clean-up must see the file as it will be printed
-			lastOpt, clean := -1, -1
-			for i, s := range seq {
-				switch s {
-				case "cleanImports":
-					clean = i
-				case "print":
-				default:
-					lastOpt = i
+		_ = li
+		for _, l := range st.Labels {
+			for _, f := range files {
+				if l == f+" uses seq" {
+					uses[f] = true
 				}
 			}
-			if good {
-				c.check(clean > lastOpt, "OPT.ORDER", "imports cleaned after the last optimisation", pos, "no optimisation pass runs between the import clean-up and printing: "+got,
+		}
+		var shown []string
+		for _, s := range seq {
+			if s.file != "" {
+				shown = append(shown, s.what+"("+s.file+")")
+			} else {
+				shown = append(shown, s.what)
+			}
+		}
+		got := strings.Join(shown, ",")
+		isPass := func(s step) bool { return s.what != "uses?" && s.what != "cleanImports" && s.what != "print" }
+		for fi, f := range files {
+			prints, printAt, cleanAt := 0, -1, -1
+			for i, s := range seq {
+				if s.what == "print" && s.file == f {
+					prints++
+					printAt = i
+				}
+			}
+			for i, s := range seq {
+				if s.what == "cleanImports" && s.file == f && (printAt < 0 || i < printAt) {
+					cleanAt = i
+				}
+			}
+			if !uses[f] {
+				note("file not using seq", prints == 0, "a file that does not use seq is printed: an extra generated file appears in the package: "+got)
+				continue
+			}
+			key := "file using seq"
+			if fi > 0 {
+				key = "second file using seq"
+			}
+			if fi == 0 {
+				note(key, prints == 1 && cleanAt >= 0, "unexpected per-file sequence (the file is to be printed exactly once, after its imports were cleaned): "+got)
+			} else {
+				note(key, prints == 1, "a file that uses seq is not written because of another file processed earlier (its plain declarations vanish from the generated package): "+got)
+			}
+			if prints == 1 && cleanAt >= 0 {
+				// an optimisation can drop the last use of an import (a reduced closure's parameter type): the
+				// clean-up must see the file as it will be printed
+				lastOpt := -1
+				for i, s := range seq[:printAt] {
+					if isPass(s) && (s.file == "" || s.file == f) {
+						lastOpt = i
+					}
+				}
+				note("imports cleaned after the last optimisation", cleanAt > lastOpt,
 					"an optimisation pass runs after the import clean-up of the file being printed: a closure such as func(s fmt.Stringer) string { return describe(s) } reduced to describe leaves \"fmt\" imported and not used, the generated file does not build: "+got)
 			}
-		} else {
-			c.check(!strings.Contains(got, "print"), "OPT.ORDER", "file not using seq", pos, "a rewritten file that does not use seq is not written to the destination (e.g. a co file that only blank-imports the API)", "a file that does not use seq is printed: an extra generated file appears in the package: "+got)
+			// the optimisation passes run over every loaded file each time (they take no file): whether a file is
+			// written must be decided before any of them has run, otherwise a pass that removes the file's last
+			// use of seq (a forwarding closure over a generator reduced to the generator) makes the file vanish
+			if at, ok := asked[f]; ok {
+				early := true
+				for _, s := range seq[:at] {
+					if isPass(s) && (s.file == "" || s.file == f) {
+						early = false
+					}
+				}
+				note("a file is chosen for writing before any optimisation pass has run", early,
+					"the question whether "+f+" uses seq is asked after an optimisation pass that runs over all files: when that pass removes the file's last use of seq (`var mk = func() Iter[int] { return gen() }` reduced to `gen`) the file is skipped and its declarations are missing from the generated package: "+got)
+			}
 		}
+	}
+	for _, key := range []string{"file using seq", "second file using seq", "file not using seq", "imports cleaned after the last optimisation", "a file is chosen for writing before any optimisation pass has run"} {
+		v := res[key]
+		if v == nil {
+			c.und("OPT.ORDER", key, pos, "no path of the per-file callbacks exercises this obligation")
+			continue
+		}
+		c.check(v.ok, "OPT.ORDER", key, pos, fmt.Sprintf("holds on all %d paths of the per-file callbacks driven over two files", len(sts)), v.why)
 	}
 }
 
